@@ -605,7 +605,28 @@ def r04_15(ctx: Ctx) -> None:
               construct="testzip certifies without decoding")
 
 
+def r04_16(ctx: Ctx) -> None:
+    """test() hashes each packed stream where it lies: _read_digest positions the handle at the `pos` it was given before its first read
+    (every fixture of the suite has no packed-stream CRCs, so test() never gets this far there); without the seek the CRC of some other
+    bytes is compared and an intact archive is reported damaged - or damage goes unseen."""
+    f = shared.szf(ctx, "_read_digest")
+    cfg = cfg_of(f.node)
+    reads = [c for c in q.calls(f) if attr_tail(c) == "read" and "fp" in norm(c.func.value)]
+    seeks = [c for c in q.calls(f) if attr_tail(c) == "seek" and "fp" in norm(c.func.value) and c.args and norm(c.args[0]) == f.params[1]]
+    ctx.floor("R04.16", len(reads), 1, "reads in _read_digest")
+    for r in reads:
+        ok = any(cfg.dominates(q.node_for(f, s_), q.node_for(f, r)) for s_ in seeks)
+        ctx.check(ok, "R04.16", f, r, "_read_digest seeks to the stream's position before reading",
+                  f"_read_digest reads from wherever the handle stands instead of `{f.params[1]}`: test() compares the stored CRC of a packed stream with the CRC of other bytes",
+                  construct="_read_digest without seek")
+    callers = [c for c in q.calls(shared.szf(ctx, "test")) if attr_tail(c) == "_read_digest"]
+    for c in callers:
+        ok = len(c.args) >= 2 and "packpos" in norm(q.expand_locals(shared.szf(ctx, "test"), c.args[0])) + norm(c.args[0]) and "packsizes" in norm(c.args[1])
+        ctx.check(ok, "R04.16", shared.szf(ctx, "test"), c, "test() hashes stream i at its position with its size", "test() does not pass (position, packsizes[i]) to _read_digest", construct="test digest args")
+
+
 def run(ctx: Ctx) -> None:
+    r04_16(ctx)
     r04_15(ctx)
     r04_14(ctx)
     from . import c11 as _c11
